@@ -4,6 +4,9 @@ import json, os
 HERE = os.path.dirname(os.path.dirname(os.path.abspath(__file__)))
 
 CHECKS = {
+ "C07": dict(level="exploration", technique="rapidcheck PBT with generated call histories (chunk partitions, copy points, junk history + re-init, in-place flags); metamorphic oracle = the library's one-shot call",
+             text="19 incremental interfaces; every generated partition of input and output (0, <rate, =rate, >rate, mixed) must give the one-shot bytes; a copy taken at a generated point (absorb or squeeze phase) must continue like its original; an object re-initialised after a generated junk history must behave like a fresh one; AEAD block calls run in place per generated mask.",
+             note="Absorb and squeeze phases are not interleaved (documentation leaves it open); the one-shot functions themselves are tied to the reference by C01-C05.", ref="4/C07"),
  "C01": dict(level="exploration", technique="rapidcheck PBT, differential against an independent spec-derived reference model; four entry-point families per case",
              text="Generated (alg, key, nonce, AD, PT, chunking, random-word tape) cases; one-shot, incremental, masked and C++ entry points are each compared with the reference ASCON v1.2 AEAD, which is pinned to frozen NIST KAT vectors. Exploration: the input space is unbounded; boundary-weighted lengths and patterned keys/nonces target what the KATs hold constant.",
              note="Trusts ref/ascon_ref.hpp + frozen vectors; messages < 2^32 bytes; quick tier uses asm(4,2,4) and c32(3,3,3), thorough 11 configurations.", ref="4/C01"),
